@@ -1,9 +1,12 @@
 #!/usr/bin/env python3
-"""keep_mutant.py PROP VARIANT  -- copies a confirmed seeded change into /verif/seeded/<PROP>-<variant>/"""
+"""keep_mutant.py PROP VARIANT [SRC_ID AS_LETTER] -- copies a confirmed seeded change into /verif/seeded/<PROP>-<letter>/
+(round 2: keep_mutant.py C04 A C04r2 c  takes /tmp/wt/out/C04r2/A and stores it as seeded/C04-c)"""
 import json, os, re, shutil, sys
 prop, var = sys.argv[1], sys.argv[2]
-src = f"/tmp/wt/out/{prop}/{var}"
-dst = f"/verif/seeded/{prop}-{var.lower()}"
+src_id = sys.argv[3] if len(sys.argv) > 3 else prop
+letter = sys.argv[4] if len(sys.argv) > 4 else var.lower()
+src = f"/tmp/wt/out/{src_id}/{var}"
+dst = f"/verif/seeded/{prop}-{letter}"
 os.makedirs(dst, exist_ok=True)
 for f in ("patch.diff", "demo.rs", "notes.md"):
     shutil.copy(os.path.join(src, f), os.path.join(dst, f))
@@ -14,9 +17,9 @@ for k, f in (("demo_without_change", "confirm_demo_clean.log"), ("demo_with_chan
     res = re.findall(r"test result: (\w+)\. (\d+) passed; (\d+) failed", t)
     conf[k] = dict(results=[f"{a} {b} passed {c} failed" for a, b, c in res][:12])
 files = sorted(set(re.findall(r"^\+\+\+ b/(\S+)", open(os.path.join(src, "patch.diff")).read(), re.M)))
-meta = dict(property=prop, variant=var, files_changed=files,
+meta = dict(property=prop, variant=letter, files_changed=files,
             needs_to_manifest=notes.strip().splitlines()[:12],
-            confirmed_by=["tools/confirm_mutant.sh %s %s (scratch worktree /tmp/wt/%s): demo passes on the clean tree, demo fails with the change, existing suite (cargo test --workspace --lib --tests --benches --offline) passes with the change" % (prop, var, prop)],
+            confirmed_by=["tools/confirm_mutant.sh %s %s (scratch worktree /tmp/wt/%s): demo passes on the clean tree, demo fails with the change, existing suite (cargo test --workspace --lib --tests --benches --offline) passes with the change" % (src_id, var, src_id)],
             confirmation=conf, source="independent sub-agent given only the property text and a scratch worktree",
             detected_by=None)
 json.dump(meta, open(os.path.join(dst, "meta.json"), "w"), indent=1)
